@@ -125,6 +125,7 @@ func UpdatePathAttrs4ByteAs(logger *slog.Logger, msg *bgp.BGPUpdate) {
 		switch a := attr.(type) {
 		case *bgp.PathAttributeAsPath:
 			asAttr = a
+			converted := false
 			for j, param := range asAttr.Value {
 				as2Param, ok := param.(*bgp.AsPathParam)
 				if ok {
@@ -134,7 +135,13 @@ func UpdatePathAttrs4ByteAs(logger *slog.Logger, msg *bgp.BGPUpdate) {
 					}
 					as4Param := bgp.NewAs4PathParam(as2Param.Type, asPath)
 					asAttr.Value[j] = as4Param
+					converted = true
 				}
+			}
+			if converted {
+				// the 4-octet segments are longer than the decoded ones:
+				// the attribute's length has to follow
+				asAttr = bgp.NewPathAttributeAsPath(asAttr.Value)
 			}
 			asAttrPos = i
 			msg.PathAttributes[i] = asAttr
@@ -290,6 +297,7 @@ func UpdatePathAggregator4ByteAs(msg *bgp.BGPUpdate) error {
 			case reflect.Uint16:
 				aggAttr = attr
 				aggAttr.Value.Askind = reflect.Uint32
+				aggAttr.Length = 8
 			case reflect.Uint32:
 				aggAttr = attr
 			}
